@@ -738,4 +738,42 @@ LEDGER_MUTANTS = [
 ]
 MUTANTS += LEDGER_MUTANTS
 
+WARN_MUTANTS = [
+    dict(id="c08-no-owner-handler", props=["C08"], rule="Y2", names="process_tpm2b",
+         edits=[(MARSHAL, """    try:
+        buffer_size, buffer_value = yield from process(
+            buffer_field.type,
+            path / PathNode(buffer_field.name),
+            size_constraints=size_constraints,
+            abort_on_error=abort_on_error,
+        )
+    except SizeConstraintExceededError as error:
+        if abort_on_error or error.constraint != tpm2b_size_constraint:
+            raise error
+        yield WarningEvent(error=error)
+        return size_size + tpm2b_size_constraint.size_already, None
+""", """    buffer_size, buffer_value = yield from process(
+        buffer_field.type,
+        path / PathNode(buffer_field.name),
+        size_constraints=size_constraints,
+        abort_on_error=abort_on_error,
+    )
+""")]),
+    dict(id="c08-owner-swallows-foreign", props=["C08"], rule="Y2", names="ownership",
+         edits=[(MARSHAL, "            if abort_on_error or error.constraint not in (\n                response_size_constraint,\n                parameter_size_constraint,\n            ):", "            if abort_on_error or error.constraint not in (\n                response_size_constraint,\n            ):")]),
+    dict(id="c08-assert-in-warn", props=["C08", "C06"], rule={"C08": "Y1", "C06": "X1"}, names="process_byte_sized_array",
+         edits=[(MARSHAL, "    elements = tpm_type()\n    parent_path = path[:-1]\n    index = 0\n", "    elements = tpm_type()\n    parent_path = path[:-1]\n    index = 0\n    assert array_size_constraint.size_max % 4 == 0\n")]),
+    dict(id="c08-selector-error-regress", props=["C08"], rule="Y1", names="process_tpmu",
+         edits=[(MARSHAL, "        raise ValueConstraintViolatedError(constraint=value_constraint, value=selector)\n\n    field = next(", "        raise AssertionError(f\"Selection error in {path}\")\n\n    field = next(")]),
+    dict(id="c08-none-iterated-regress", props=["C08"], rule="Y3", names="authorizationArea",
+         edits=[(MARSHAL, "    if authorizationArea is None:\n        # no (or no decodable) session area: nobody requested encryption\n        return False\n", "")]),
+    dict(id="c08-unguarded-abort", props=["C08", "C07"], rule={"C08": "Y1", "C07": "NI-1"}, names="set_constraint",
+         edits=[(CONSTR, "            if abort_on_error:\n                raise error\n            yield WarningEvent(error=error)\n", "            if abort_on_error or size_max > 0xFFFF:\n                raise error\n            yield WarningEvent(error=error)\n")]),
+    dict(id="c08-skip-amount", props=["C08"], rule="Y4", names="padding skip",
+         edits=[(CONSTR, "        yield WarningEvent(error=error)\n\n        yield from consume_bytes(self.size_max - self.size_already)", "        yield WarningEvent(error=error)\n\n        yield from consume_bytes(self.size_max - self.size_already - 1)")]),
+    dict(id="c08-recovery-no-warning", props=["C08", "C07"], rule={"C08": "Y2", "C07": "NI-3"}, names="recovery path",
+         edits=[(MARSHAL, "            if abort_on_error or error.constraint != array_size_constraint:\n                raise error\n            yield WarningEvent(error=error)\n            return", "            if abort_on_error or error.constraint != array_size_constraint:\n                raise error\n            return")]),
+]
+MUTANTS += WARN_MUTANTS
+
 MUTANTS = [m for m in MUTANTS if not m.get("skip_if_missing")]
